@@ -48,7 +48,12 @@ PROP = dict(
          "bursts of send() racing with 5-40 frames in flight; compared is the race-insensitive summary (one connected event before "
          "any message, deliveries = a prefix of the frames sent in order, pongs = nonces of the delivered pings, one disconnected event, "
          "send results ok* then IllegalState*, node received exactly the ok sends, final send fails) which the driver checks to be the "
-         "same for every linearisation point of the model. A case is non-trivial when a TCP session with the peer took place.",
+         "same for every linearisation point of the model. c12.conc: a real session after the handshake, N inv frames (+ half-close) "
+         "sent at once, 1-3 local threads with programs over send / send-unserialisable / disconnect, every thread parked at the H3 sync "
+         "points of peer.rs and released one model step at a time along the request's schedule (random prefix, then a fixed tail running "
+         "every thread to completion); compared: the observable log (deliveries, disconnected event, send results) = the interleaving "
+         "model's (CG.Model.PeerConc, eager invisible steps); a disagreeing log is judged by the C12conc theorem statements "
+         "(c12.judgeconc). A case is non-trivial when a TCP session with the peer took place.",
     nontrivial=lambda req, impl: impl.startswith("ok:") or impl == "hang",
     trusted_base=["Single / Subject (src/util/rx.rs) enter the model only through their API semantics: first value wins, delivery to "
                   "subscribed observers in publication order (their concurrent behaviour is C13)",
@@ -56,10 +61,14 @@ PROP = dict(
                   "the harness's scripted node, its `sync` rule and the race summary (harness/src/c12.rs)",
                   "payload codecs: frames of commands other than version/ping/pong/feefilter/sendcmpct are taken as valid (f:) or rejected (g:) "
                   "as the generator built them (C05/C06 are about the codecs)"],
-    assumptions=["PARTIAL: real thread scheduling and socket timing are observed, not modelled. One event = one atomic step; a local "
-                 "disconnect() whose flag store lands after the receive thread's flag test of an in-flight message is linearised after that "
-                 "message although its disconnected event can be published before the message is; nothing-after-disconnect is claimed for "
-                 "remote-caused disconnection (as the property states)",
+    assumptions=["sequential model (C12): one event = one atomic step; a local disconnect() whose flag store lands after the receive "
+                 "thread's flag test of an in-flight message is linearised after that message although its disconnected event can be "
+                 "published before the message is. The interleaving model (C12conc) makes this exact: at most one such late delivery, none "
+                 "when every disconnection is remote-caused; nothing-after-disconnect is claimed for remote-caused disconnection (as the "
+                 "property states)",
+                 "C12conc: a write fails only on a locally shut socket or for an unserialisable message (the remote half-closes and keeps "
+                 "reading); the receive thread's own pong write is one step; socket timing is not modelled (steered sessions send all "
+                 "frames before the first step)",
                  "the handshake reads from the raw TcpStream (read_exact): segmentation there is covered by the correspondence only; a "
                  "timeout inside a handshake message, Message::Partial during the handshake, write errors on a reset socket and "
                  "TcpStream::connect failing are not modelled",
@@ -84,8 +93,18 @@ CLAIM = dict(
          "cut-based reference for every session in which disconnect() is not called before the handshake is over. Byte-level remote "
          "behaviour (segmentation, pacing, truncation, corruption) is lifted to events by the C11 theorems. Tied to the code by ~250 "
          "scripted loopback sessions per run against the real Peer (faults at any point, segmentation, pacing, local calls at "
-         "scripted points and racing).",
-    note="PARTIAL for real concurrency: the model is sequential; the interleaving of a local disconnect() with an in-flight received "
-         "message, socket buffering and timeouts are observed by the correspondence, not modelled. Trusted: Lean kernel; Single/Subject "
+         "scripted points and racing). CONCURRENT PART (CG.Props.C12conc): an interleaving model of the connected phase at the "
+         "granularity of peer.rs's shared accesses (connected flag load/swap, the tcp_writer mutex incl. its being held across "
+         "shutdown and the event in disconnect(), the single-shot event) with theorems over ALL schedules, any number of local "
+         "threads and programs: at most one disconnected event; deliveries in order, each at most once; if no local thread calls "
+         "disconnect() and every sent message is serialisable, NOTHING is delivered after the disconnected event; with local "
+         "disconnect() racing, at most ONE message is (bound attained: kernel-checked witness, replayed on the real Peer); a send "
+         "started after the flag was cleared is refused at once; a local call waits only for the tcp_writer mutex whose holder can "
+         "always release it. Tied to the code by ~400 real loopback sessions per run steered through the H3 sync points of "
+         "peer.rs, one model step per release, log compared exactly.",
+    note="Concurrency of the connected phase is modelled and proved (C12conc) under: the remote half-closes and keeps reading (a "
+         "write fails only on a locally shut socket or an unserialisable message; an abortive remote close making a local send fail "
+         "is not modelled), no pings in steered sessions (the receive thread's pong write is one step). The handshake phase, socket "
+         "buffering and timeouts remain observed by the correspondence, not modelled. Trusted: Lean kernel; Single/Subject "
          "through their API semantics (C13); the model<->code tie is differential (bounded by the generators).",
 )
